@@ -588,6 +588,7 @@ func main() {
 	handshakeView(o)
 	sessionRows(o, g)
 	pipelinedViews(o)
+	udtStructs(o)
 
 	o.Finish("From GocqlV Require Import Lib.Base C04.Model C04.Spec C04.Corr.", "C04.Corr.case", "C04.Corr.run")
 }
